@@ -22,7 +22,7 @@ import (
 func TestC14(t *testing.T) {
 	r := vcore.Start(t, "C14")
 	defer debug.SetGCPercent(debug.SetGCPercent(600)) // millions of tiny solves: allocation-bound
-	only := os.Getenv("C14_ONLY") // debugging aid: comma-separated family prefixes
+	only := os.Getenv("C14_ONLY")                     // debugging aid: comma-separated family prefixes
 	want := func(name string) bool {
 		if only == "" {
 			return true
